@@ -66,6 +66,84 @@ fn selfcheck() {
     let mut em = e.clone(); em[0].expect = Expect::May;
     let al = oracle::allowed(&map, &em).unwrap_or_else(|| bad("allowed"));
     if al.len() != 2 || !al.contains(&map) || !al.contains(&exp[0]) { bad("May effect: allowed set wrong"); }
+    // ---- effects that touch each other, hand-computed: every delegate gets the name the GIVEN mappings give to ITS bridge
+    let mk_maps = |ns: [&str; 2], classes: &[(&str, &str)], methods: &[(&str, &str, &str, &str)]| -> Maps {
+        let mut m = Maps::new(&ns);
+        for (a, b) in classes { m.classes.insert(a.to_string(), maps::Class { names: vec![s(a), s(b)], ..Default::default() }); }
+        for (c, n, d, to) in methods { m.classes.get_mut(*c).unwrap().methods.insert((n.to_string(), d.to_string()), maps::Method { names: vec![s(n), s(to)], ..Default::default() }); }
+        m
+    };
+    let key = |n: &str, d: &str| (n.to_string(), d.to_string());
+    let types = || vec![cd("Base", OBJECT, &[], vec![]), cd("K", "Base", &[], vec![])];
+    // (1) chain inside one class, both class-file orders.
+    //   class P { Object get() }
+    //   class H extends P { synthetic bridge Object get() -> H.get()Base;   synthetic bridge Base get() -> H.get()K;   K get() }
+    //   calamus:  P.get()Object -> m_1,  H.get()Base -> m_2,  H.get()K -> m_3          (H.get()Object is m_1 through P)
+    //   mappings: C_1.m_1 -> fetch;  C_2.m_2 -> fetchBase (comment "doc");  no entry for m_3, none for m_1 in C_2
+    //   expected: C_2.m_2 -> fetch      (b1 is named through P; the comment stays)
+    //             C_2.m_3 -> fetchBase  (b2's name as GIVEN, not the "fetch" that b1's effect has just written into b2's entry)
+    for flip in [false, true] {
+        let mut hm = vec![
+            md("get", "()Ljava/lang/Object;", PUBLIC | SYNTHETIC | BRIDGE, vec![call(182, "H", "get", "()LBase;")]),
+            md("get", "()LBase;", PUBLIC | SYNTHETIC | BRIDGE, vec![call(182, "H", "get", "()LK;")]),
+            md("get", "()LK;", PUBLIC, vec![]),
+        ];
+        if flip { hm.reverse(); }
+        let mut classes = vec![cd("P", OBJECT, &[], vec![md("get", "()Ljava/lang/Object;", PUBLIC, vec![])]), cd("H", "P", &[], hm)];
+        classes.extend(types());
+        let cal = mk_maps(["official", "intermediary"], &[("P", "C_1"), ("H", "C_2"), ("K", "C_4"), ("Base", "C_5")], &[("P", "get", "()Ljava/lang/Object;", "m_1"), ("H", "get", "()LBase;", "m_2"), ("H", "get", "()LK;", "m_3")]);
+        let mut map = mk_maps(["intermediary", "named"], &[("C_1", "named/P"), ("C_2", "named/H")], &[("C_1", "m_1", "()Ljava/lang/Object;", "fetch"), ("C_2", "m_2", "()LC_5;", "fetchBase")]);
+        map.classes.get_mut("C_2").unwrap().methods.get_mut(&key("m_2", "()LC_5;")).unwrap().comment = s("doc");
+        let sc = Scenario { main: JarD { classes }, libs: vec![], calamus: cal, mappings: map.clone(), intents: vec![], zip: false, layout_seed: 1, requested: Default::default() };
+        let cands = oracle::classify(&sc.main);
+        let e = oracle::effects(&sc, &cands, false, false);
+        let mut view = effect_view(&e); view.sort();
+        if view != vec![("C_2".to_string(), key("m_2", "()LC_5;"), "fetch".to_string()), ("C_2".to_string(), key("m_3", "()LC_4;"), "fetchBase".to_string())] { bad(&format!("chain canary: reference effects differ from the hand-computed ones: {view:?}")); }
+        let al = oracle::allowed(&map, &e).unwrap_or_else(|| bad("allowed"));
+        if al.len() != 1 { bad("chain canary: two Must effects on two entries must give exactly one allowed output"); }
+        let c2 = &al[0].classes["C_2"];
+        if c2.methods.len() != 2 || c2.methods[&key("m_2", "()LC_5;")].names != vec![s("m_2"), s("fetch")] || c2.methods[&key("m_2", "()LC_5;")].comment != s("doc") || c2.methods[&key("m_3", "()LC_4;")].names != vec![s("m_3"), s("fetchBase")] || al[0].classes["C_1"] != map.classes["C_1"] { bad("chain canary: expected output differs from the hand-computed one"); }
+        let f = oracle::chain_facts(&sc, &e);
+        let want = oracle::ChainFacts { b1_before_b2: !flip as usize, b2_before_b1: flip as usize, differing_b1_first: !flip as usize, differing_b2_first: flip as usize, bridge_entry_overwritten: 1, ..Default::default() };
+        if f != want { bad(&format!("chain canary: coverage facts {f:?}, hand-computed {want:?}")); }
+        // the modelled defect (names read from the mappings being produced) differs exactly when b1 is handled before b2, and is flagged
+        let (fwd, rev) = (oracle::stale_read_variant(&sc, &e, false), oracle::stale_read_variant(&sc, &e, true));
+        let (wrong, right) = if flip { (&rev, &fwd) } else { (&fwd, &rev) };
+        if *right != al[0] { bad("chain canary: handling b2 before b1 must give the reference output even when names are read from the output"); }
+        if wrong.classes["C_2"].methods[&key("m_3", "()LC_4;")].names != vec![s("m_3"), s("fetch")] { bad("chain canary: the stale-read variant does not hand b1's name on to the final delegate"); }
+        let targets: BTreeSet<(String, (String, String))> = e.iter().map(|e| (e.class.clone(), e.key.clone())).collect();
+        if oracle::compare(&al[0], wrong, &targets) != vec![("bridge target entry: names differ".to_string(), "class C_2 method m_3()LC_4; expected [Some(\"m_3\"), Some(\"fetchBase\")] observed [Some(\"m_3\"), Some(\"fetch\")]".to_string())] { bad("canary: a final delegate named after the first bridge of the chain is not flagged"); }
+        // a bridge that is skipped because it was already handled as a delegate: the final delegate's entry is missing
+        let mut skipped = al[0].clone(); skipped.classes.get_mut("C_2").unwrap().methods.remove(&key("m_3", "()LC_4;"));
+        if oracle::compare(&al[0], &skipped, &targets).iter().all(|(k, _)| k != "bridge target entry: method entry missing") { bad("canary: a skipped second bridge is not flagged"); }
+        if let Err(e) = emitc::emit_jar(&sc.main, 3) { bad(&e); }
+    }
+    // (2) the chain split over a class and its subclass.
+    //   class P { synthetic bridge Object get() -> P.get()Base;   Base get() }
+    //   class Q extends P { synthetic bridge Base get() -> Q.get()K;   K get() }
+    //   calamus:  P.get()Object -> m_1,  P.get()Base -> m_2,  Q.get()K -> m_3           (Q.get()Base is m_2 through P)
+    //   mappings: C_1.m_1 -> fetch, C_1.m_2 -> fetchBase;  C_2 without methods
+    //   expected: C_1.m_2 -> fetch;  C_2.m_3 -> fetchBase (Q's bridge is named through P's entry AS GIVEN)
+    {
+        let classes = vec![
+            cd("P", OBJECT, &[], vec![md("get", "()Ljava/lang/Object;", PUBLIC | SYNTHETIC | BRIDGE, vec![call(182, "P", "get", "()LBase;")]), md("get", "()LBase;", PUBLIC, vec![])]),
+            cd("Q", "P", &[], vec![md("get", "()LBase;", PUBLIC | SYNTHETIC, vec![call(182, "Q", "get", "()LK;")]), md("get", "()LK;", PUBLIC, vec![])]),
+            cd("Base", OBJECT, &[], vec![]), cd("K", "Base", &[], vec![]),
+        ];
+        let cal = mk_maps(["official", "intermediary"], &[("P", "C_1"), ("Q", "C_2"), ("K", "C_4"), ("Base", "C_5")], &[("P", "get", "()Ljava/lang/Object;", "m_1"), ("P", "get", "()LBase;", "m_2"), ("Q", "get", "()LK;", "m_3")]);
+        let map = mk_maps(["intermediary", "named"], &[("C_1", "named/P"), ("C_2", "named/Q")], &[("C_1", "m_1", "()Ljava/lang/Object;", "fetch"), ("C_1", "m_2", "()LC_5;", "fetchBase")]);
+        let sc = Scenario { main: JarD { classes }, libs: vec![], calamus: cal, mappings: map.clone(), intents: vec![], zip: false, layout_seed: 1, requested: Default::default() };
+        let cands = oracle::classify(&sc.main);
+        let e = oracle::effects(&sc, &cands, false, false);
+        let mut view = effect_view(&e); view.sort();
+        if view != vec![("C_1".to_string(), key("m_2", "()LC_5;"), "fetch".to_string()), ("C_2".to_string(), key("m_3", "()LC_4;"), "fetchBase".to_string())] { bad(&format!("split-chain canary: reference effects differ from the hand-computed ones: {view:?}")); }
+        let f = oracle::chain_facts(&sc, &e);
+        if f != (oracle::ChainFacts { across_named_through_rewritten_entry: 1, ..Default::default() }) { bad(&format!("split-chain canary: coverage facts {f:?}")); }
+        let must: Vec<&Effect> = e.iter().collect();
+        let reference = oracle::apply(&map, &must);
+        let fwd = oracle::stale_read_variant(&sc, &e, false);
+        if fwd.classes["C_2"].methods[&key("m_3", "()LC_4;")].names != vec![s("m_3"), s("fetch")] || fwd == reference || oracle::stale_read_variant(&sc, &e, true) != reference { bad("split-chain canary: stale-read variant"); }
+    }
     // ---- emitted classes say what the description says, and the real reader sees the same pairs on the canary jar
     if let Err(e) = emitc::emit_jar(&main, 7) { bad(&e); }
     if let Err(e) = maps::self_test(15, 10) { bad(&e); }
